@@ -293,6 +293,10 @@ def run(prog: Program, col: Collector, tier: str, refs: Optional[Refs] = None, c
     c04._rename_clash(prog, col, refs, cat, c04._subs_collections(prog, refs, cat))
     c15._logsumexp_axis(prog, col, refs, cat, "R11.12")
     _partial_delegation(prog, col, refs, cat, adj_regs, reg)
+    # round 7: what the forward pass and the optimizer compute before the tape replays them (shared with C08 / C01 / C15)
+    algebra.r_operand_multiplicity(prog, col, refs, cat, "R11.14")
+    algebra.r_size_product_over_sequence(prog, col, refs, cat, "R11.15")
+    numerics.run_agreement(prog, col, refs, cat, rule="R11.16")
     return col
 
 
